@@ -17,7 +17,9 @@ func InitGenesis(ctx sdk.Context, k keeper.Keeper, data types.GenesisState) {
 			k.SetRewardRule(ctx, pool.Id, r)
 		}
 		k.SetPool(ctx, pool)
-		if !k.Expired(ctx, pool) {
+		// a pool whose end height has not passed is still running. Keeper.Expired cannot be used
+		// here: at height == EndHeight it looks the pool up in the very queue being rebuilt.
+		if ctx.BlockHeight() <= pool.EndHeight {
 			k.EnqueueActivePool(ctx, pool.Id, pool.EndHeight)
 		}
 	}
